@@ -693,3 +693,19 @@ def replay(ctx, path):
         return 1
     print("property holds on this input now")
     return 0
+
+
+META = {
+    "text": "Rocq theorems for EVERY width (8/16/32/64), generator polynomial, initial value and byte string: table entry c = "
+            "bit-serial CRC of the one-byte message [c]; the table-driven CRC (both bit orders) equals bit-at-a-time polynomial "
+            "division (with the GF(2)[x] remainder identity); the l variants are the m variants under bit reflection of "
+            "polynomial, data and value (stated with the library's own a_u*_rev, proved = bit mirror and involutive by GF(2) "
+            "lifting); feeding in pieces at every split point equals one shot, for the CRCs and both multiplicative hashes; "
+            "string and length-delimited hash forms agree on NUL-free input. Tie: extracted model vs the C under ASan+UBSan - "
+            "all 256 8-bit polynomials x full tables x both orders, sampled (thorough: all 16-bit) wider polynomials, messages "
+            "0..300 bytes, non-zero inits, every split point.",
+    "note": "Trusted: Coq kernel/vm_compute (basis sweeps of w words); extraction (ExtrOcamlBasic only) + drivers; hand-written "
+            "model coq/C17/CrcDefs.v tied by differential testing on the generated cases; table entries typed below 2^w; C "
+            "strings as byte lists. No axioms.",
+    "technique": "Rocq proof (xor-linearity of the CRC step, induction over the message, GF(2) lifting for bit reversal) + extracted-model vs C correspondence",
+}
